@@ -48,6 +48,22 @@ class Module:
         return f"<Module {self.name}>"
 
 
+def _dispatch_registration(node):
+    """@<dispatcher>.register(<class>) / @<dispatcher>.register (class taken from the first annotated parameter):
+    -> (dispatcher name, class expression) or None."""
+    for d in node.decorator_list:
+        call = d if isinstance(d, ast.Call) else None
+        target = call.func if call is not None else d
+        if isinstance(target, ast.Attribute) and target.attr == "register" and isinstance(target.value, (ast.Name, ast.Attribute)):
+            name = target.value.id if isinstance(target.value, ast.Name) else target.value.attr
+            if call is not None and call.args:
+                return (name, call.args[0])
+            params = [a for a in node.args.posonlyargs + node.args.args if a.arg not in ("self", "cls")]
+            if params and params[0].annotation is not None:
+                return (name, params[0].annotation)
+    return None
+
+
 class FunctionInfo:
     def __init__(self, node, module: Module, cls: Optional["ClassInfo"], parent=None):
         self.node = node
@@ -125,9 +141,16 @@ class ClassInfo:
         self.setters: Dict[str, FunctionInfo] = {}
         self.subclasses: List[ClassInfo] = []
         self.keywords = {k.arg: k.value for k in node.keywords}
+        self.dispatch_impls: Dict[str, list] = {}  # singledispatchmethod: dispatcher name -> [(class expr, FunctionInfo)]
         for st in node.body:
             if isinstance(st, (ast.FunctionDef, ast.AsyncFunctionDef)):
                 fi = FunctionInfo(st, module, self)
+                reg = _dispatch_registration(st)
+                if reg is not None:
+                    self.dispatch_impls.setdefault(reg[0], []).append((reg[1], fi))
+                    self.dispatch_all = getattr(self, "dispatch_all", []) + [fi]
+                    if fi.name == "_" or fi.name in self.methods:
+                        continue  # the usual anonymous '_' implementations do not shadow one another
                 k = fi.kind
                 if k == "getter":
                     self.getters[fi.name] = fi
@@ -379,6 +402,12 @@ class Program:
                     self._register_function(f)
             elif isinstance(st, (ast.FunctionDef, ast.AsyncFunctionDef)):
                 fi = FunctionInfo(st, mod, None)
+                reg = _dispatch_registration(st)
+                if reg is not None:
+                    mod.__dict__.setdefault("dispatch_impls", {}).setdefault(reg[0], []).append((reg[1], fi))
+                    self._register_function(fi)
+                    if fi.name == "_" or fi.name in mod.functions:
+                        continue
                 mod.functions[fi.name] = fi
                 mod.ns[fi.name] = ("func", fi)
                 self._register_function(fi)
@@ -386,6 +415,16 @@ class Program:
                 for t in st.targets:
                     if isinstance(t, ast.Name):
                         mod.ns[t.id] = ("assign", st.value)
+                    elif isinstance(t, (ast.Tuple, ast.List)) and all(isinstance(x, ast.Name) for x in t.elts):
+                        # a, b = X(), Y()   /   a, b = some_pair
+                        for i_, x in enumerate(t.elts):
+                            if isinstance(st.value, (ast.Tuple, ast.List)) and len(st.value.elts) == len(t.elts):
+                                mod.ns[x.id] = ("assign", st.value.elts[i_])
+                            else:
+                                sub = ast.Subscript(value=st.value, slice=ast.Constant(value=i_), ctx=ast.Load())
+                                ast.copy_location(sub, st.value)
+                                ast.fix_missing_locations(sub)
+                                mod.ns[x.id] = ("assign", sub)
             elif isinstance(st, ast.AnnAssign) and isinstance(st.target, ast.Name) and st.value is not None:
                 mod.ns[st.target.id] = ("assign", st.value)
             elif isinstance(st, ast.If):
